@@ -96,7 +96,7 @@ def read_user_flags(rules, argv):
   return _ruf['fn'](rules, argv)
 
 
-DOLLAR = re.compile(r'\$\{(.*?)\}')
+DOLLAR = re.compile(r'\$\{(.*?)\}', re.S)     # the compiler's own scan also runs across newlines
 
 
 def install_loopwatch(m):
